@@ -702,7 +702,6 @@ package gtab
 // the positions of this one).
 //@ func (l *SeqContext2) apply(ctx *Context, a int, b int) (next int)   props: C07 C06
 //@   requires l != nil && ctx != nil && 0 <= a && a < b && b <= len(ctx.seq) && stackinv(ctx) && keepOK(ctx) && llOK(ctx)
-//@   requires forall g uint16 :: l.Input[g] < len(l.Rules)
 //@   requires forall i int :: 0 <= i && i < len(l.Rules) ==> forall j int :: 0 <= j && j < len(l.Rules[i]) ==> l.Rules[i][j] != nil
 //@   ensures next >= -1 && next <= len(ctx.seq) && stackinv(ctx) && len(ctx.seq) == old(len(ctx.seq))
 //@   ensures next < 0 ==> len(ctx.stack) == old(len(ctx.stack))
@@ -729,3 +728,111 @@ package gtab
 //@     invariant len(matchPos) >= 1 && stackinv(ctx) && len(ctx.stack) == old(len(ctx.stack)) && (ref(matchPos) == ref(ctx.scratch) || fresh(matchPos)) && ctx.scratch == old(ctx.scratch) && rule != nil
 //@     invariant forall k int :: 0 <= k && k < len(ctx.stack) ==> !fresh(ctx.stack[k].InputPos)
 //@     decreases b - p
+
+// Same structure as SeqContext2.apply, the rule set is chosen by coverage index.
+//@ func (l *SeqContext1) apply(ctx *Context, a int, b int) (next int)   props: C07 C06
+//@   requires l != nil && ctx != nil && 0 <= a && a < b && b <= len(ctx.seq) && stackinv(ctx) && keepOK(ctx) && llOK(ctx)
+//@   requires forall g uint16 :: has(l.Cov, g) ==> 0 <= l.Cov[g] && l.Cov[g] < len(l.Rules)
+//@   requires forall i int :: 0 <= i && i < len(l.Rules) ==> forall j int :: 0 <= j && j < len(l.Rules[i]) ==> l.Rules[i][j] != nil
+//@   ensures next >= -1 && next <= len(ctx.seq) && stackinv(ctx) && len(ctx.seq) == old(len(ctx.seq))
+//@   ensures next < 0 ==> len(ctx.stack) == old(len(ctx.stack))
+//@   ensures next >= 0 ==> a < next && next <= b && len(ctx.stack) == old(len(ctx.stack)) + 1
+//@   opt assume_make=1
+//@   modifies ctx.scratch, ctx.stack, ctx.stack[*], ctx.scratch[*], all(nested), allelems(int), allelems(*nested)
+//@   loop 0
+//@     invariant stackinv(ctx) && len(ctx.stack) == old(len(ctx.stack)) && len(ctx.seq) == old(len(ctx.seq)) && ref(seq) == ref(ctx.seq) && off(seq) == off(ctx.seq) && len(seq) == len(ctx.seq) && b <= len(seq) && ctx.scratch == old(ctx.scratch) && keep == ctx.keep
+//@     invariant isnil(matchPos) || ref(matchPos) == ref(ctx.scratch) || fresh(matchPos)
+//@     invariant forall k int :: 0 <= k && k < len(ctx.stack) ==> !fresh(ctx.stack[k].InputPos)
+//@   loop 1
+//@     invariant stackinv(ctx) && len(ctx.stack) == old(len(ctx.stack)) && len(ctx.seq) == old(len(ctx.seq)) && ref(seq) == ref(ctx.seq) && off(seq) == off(ctx.seq) && len(seq) == len(ctx.seq) && b <= len(seq) && ctx.scratch == old(ctx.scratch) && keep == ctx.keep
+//@     invariant ref(matchPos) == ref(ctx.scratch) || fresh(matchPos)
+//@     invariant forall k int :: 0 <= k && k < len(ctx.stack) ==> !fresh(ctx.stack[k].InputPos)
+//@     invariant a <= p && p < b && glyphsNeeded >= 0 && glyphsNeeded == len(rule.Input) - iter && len(matchPos) >= 1 && rule != nil
+//@     invariant forall k int :: 0 <= k && k < len(matchPos) ==> a <= matchPos[k] && matchPos[k] <= p
+//@   loop 2
+//@     invariant a < p && p <= b && glyphsNeeded >= 0 && b <= len(seq) && len(seq) == len(ctx.seq) && ref(seq) == ref(ctx.seq) && off(seq) == off(ctx.seq) && len(ctx.seq) == old(len(ctx.seq)) && keep == ctx.keep
+//@     invariant forall k int :: 0 <= k && k < len(matchPos) ==> a <= matchPos[k] && matchPos[k] < p
+//@     decreases b - p
+//@   loop 3
+//@     invariant a < p && p <= b && b <= len(seq) && len(seq) == len(ctx.seq) && ref(seq) == ref(ctx.seq) && off(seq) == off(ctx.seq) && len(ctx.seq) == old(len(ctx.seq)) && keep == ctx.keep
+//@     invariant forall k int :: 0 <= k && k < len(matchPos) ==> a <= matchPos[k] && matchPos[k] < p
+//@     invariant len(matchPos) >= 1 && stackinv(ctx) && len(ctx.stack) == old(len(ctx.stack)) && (ref(matchPos) == ref(ctx.scratch) || fresh(matchPos)) && ctx.scratch == old(ctx.scratch) && rule != nil
+//@     invariant forall k int :: 0 <= k && k < len(ctx.stack) ==> !fresh(ctx.stack[k].InputPos)
+//@     decreases b - p
+
+// Coverage-based context: one rule, one coverage set per input position.
+//@ func (l *SeqContext3) apply(ctx *Context, a int, b int) (next int)   props: C07 C06
+//@   requires l != nil && ctx != nil && 0 <= a && a < b && b <= len(ctx.seq) && stackinv(ctx) && keepOK(ctx) && llOK(ctx)
+//@   requires len(l.Input) >= 1
+//@   ensures next >= -1 && next <= len(ctx.seq) && stackinv(ctx) && len(ctx.seq) == old(len(ctx.seq))
+//@   ensures next < 0 ==> len(ctx.stack) == old(len(ctx.stack))
+//@   ensures next >= 0 ==> a < next && next <= b && len(ctx.stack) == old(len(ctx.stack)) + 1
+//@   opt assume_make=1
+//@   modifies ctx.scratch, ctx.stack, ctx.stack[*], ctx.scratch[*], all(nested), allelems(int), allelems(*nested)
+//@   loop 0
+//@     invariant stackinv(ctx) && len(ctx.stack) == old(len(ctx.stack)) && len(ctx.seq) == old(len(ctx.seq)) && ref(seq) == ref(ctx.seq) && off(seq) == off(ctx.seq) && len(seq) == len(ctx.seq) && b <= len(seq) && ctx.scratch == old(ctx.scratch) && keep == ctx.keep
+//@     invariant ref(matchPos) == ref(ctx.scratch) || fresh(matchPos)
+//@     invariant forall k int :: 0 <= k && k < len(ctx.stack) ==> !fresh(ctx.stack[k].InputPos)
+//@     invariant a <= p && p < b && glyphsNeeded >= 0 && glyphsNeeded == len(l.Input) - 1 - iter && len(matchPos) >= 1
+//@     invariant forall k int :: 0 <= k && k < len(matchPos) ==> a <= matchPos[k] && matchPos[k] <= p
+//@   loop 1
+//@     invariant a < p && p <= b && glyphsNeeded >= 0 && b <= len(seq) && len(seq) == len(ctx.seq) && ref(seq) == ref(ctx.seq) && off(seq) == off(ctx.seq) && len(ctx.seq) == old(len(ctx.seq)) && keep == ctx.keep
+//@     invariant forall k int :: 0 <= k && k < len(matchPos) ==> a <= matchPos[k] && matchPos[k] < p
+//@     decreases b - p
+//@   loop 2
+//@     invariant a < p && p <= b && b <= len(seq) && len(seq) == len(ctx.seq) && ref(seq) == ref(ctx.seq) && off(seq) == off(ctx.seq) && len(ctx.seq) == old(len(ctx.seq)) && keep == ctx.keep
+//@     invariant forall k int :: 0 <= k && k < len(matchPos) ==> a <= matchPos[k] && matchPos[k] < p
+//@     invariant len(matchPos) >= 1 && stackinv(ctx) && len(ctx.stack) == old(len(ctx.stack)) && (ref(matchPos) == ref(ctx.scratch) || fresh(matchPos)) && ctx.scratch == old(ctx.scratch)
+//@     invariant forall k int :: 0 <= k && k < len(ctx.stack) ==> !fresh(ctx.stack[k].InputPos)
+//@     decreases b - p
+
+// Chained context, format 1: backtrack and lookahead are only inspected, the
+// new stack entry owns the match positions of the input sequence.
+//@ func (l *ChainedSeqContext1) apply(ctx *Context, a int, b int) (next int)   props: C07 C06
+//@   requires l != nil && ctx != nil && 0 <= a && a < b && b <= len(ctx.seq) && stackinv(ctx) && keepOK(ctx) && llOK(ctx)
+//@   requires forall g uint16 :: has(l.Cov, g) ==> 0 <= l.Cov[g] && l.Cov[g] < len(l.Rules)
+//@   requires forall i int :: 0 <= i && i < len(l.Rules) ==> forall j int :: 0 <= j && j < len(l.Rules[i]) ==> l.Rules[i][j] != nil
+//@   ensures next >= -1 && next <= len(ctx.seq) && stackinv(ctx) && len(ctx.seq) == old(len(ctx.seq))
+//@   ensures next < 0 ==> len(ctx.stack) == old(len(ctx.stack))
+//@   ensures next >= 0 ==> a < next && next <= b && len(ctx.stack) == old(len(ctx.stack)) + 1
+//@   opt assume_make=1
+//@   modifies ctx.scratch, ctx.stack, ctx.stack[*], ctx.scratch[*], all(nested), allelems(int), allelems(*nested)
+//@   let C = stackinv(ctx) && len(ctx.stack) == old(len(ctx.stack)) && len(ctx.seq) == old(len(ctx.seq)) && ref(seq) == ref(ctx.seq) && off(seq) == off(ctx.seq) && len(seq) == len(ctx.seq) && b <= len(seq) && ctx.scratch == old(ctx.scratch) && keep == ctx.keep
+//@   let L = len(ctx.seq) == old(len(ctx.seq)) && ref(seq) == ref(ctx.seq) && off(seq) == off(ctx.seq) && len(seq) == len(ctx.seq) && b <= len(seq) && keep == ctx.keep
+//@   loop 0
+//@     invariant C
+//@     invariant isnil(matchPos) || ref(matchPos) == ref(ctx.scratch) || fresh(matchPos)
+//@     invariant forall k int :: 0 <= k && k < len(ctx.stack) ==> !fresh(ctx.stack[k].InputPos)
+//@   loop 1
+//@     invariant C && rule != nil
+//@     invariant isnil(matchPos) || ref(matchPos) == ref(ctx.scratch) || fresh(matchPos)
+//@     invariant forall k int :: 0 <= k && k < len(ctx.stack) ==> !fresh(ctx.stack[k].InputPos)
+//@     invariant 0 <= p && p <= a && glyphsNeeded >= 0 && glyphsNeeded == len(rule.Backtrack) - iter
+//@   loop 2
+//@     invariant L && -1 <= p && p < a && glyphsNeeded >= 0
+//@     decreases p + 1
+//@   loop 3
+//@     invariant C && rule != nil
+//@     invariant ref(matchPos) == ref(ctx.scratch) || fresh(matchPos)
+//@     invariant forall k int :: 0 <= k && k < len(ctx.stack) ==> !fresh(ctx.stack[k].InputPos)
+//@     invariant a <= p && p < b && glyphsNeeded >= 0 && glyphsNeeded == len(rule.Input) - iter && len(matchPos) >= 1
+//@     invariant forall k int :: 0 <= k && k < len(matchPos) ==> a <= matchPos[k] && matchPos[k] <= p
+//@   loop 4
+//@     invariant L && a < p && p <= b && glyphsNeeded >= 0
+//@     invariant forall k int :: 0 <= k && k < len(matchPos) ==> a <= matchPos[k] && matchPos[k] < p
+//@     decreases b - p
+//@   loop 5
+//@     invariant C && rule != nil
+//@     invariant ref(matchPos) == ref(ctx.scratch) || fresh(matchPos)
+//@     invariant forall k int :: 0 <= k && k < len(ctx.stack) ==> !fresh(ctx.stack[k].InputPos)
+//@     invariant a <= next && next < b && next <= p && p < len(seq) && glyphsNeeded >= 0 && glyphsNeeded == len(rule.Lookahead) - iter && len(matchPos) >= 1
+//@     invariant forall k int :: 0 <= k && k < len(matchPos) ==> a <= matchPos[k] && matchPos[k] <= next
+//@   loop 6
+//@     invariant L && a <= next && next < b && next < p && p <= len(seq) && glyphsNeeded >= 0
+//@     decreases len(seq) - p
+//@   loop 7
+//@     invariant L && a < next && next <= b
+//@     invariant forall k int :: 0 <= k && k < len(matchPos) ==> a <= matchPos[k] && matchPos[k] < next
+//@     invariant len(matchPos) >= 1 && stackinv(ctx) && len(ctx.stack) == old(len(ctx.stack)) && (ref(matchPos) == ref(ctx.scratch) || fresh(matchPos)) && ctx.scratch == old(ctx.scratch) && rule != nil
+//@     invariant forall k int :: 0 <= k && k < len(ctx.stack) ==> !fresh(ctx.stack[k].InputPos)
+//@     decreases b - next
